@@ -48,6 +48,10 @@ CHECKS = {
             "For every program of a corpus that covers every AST node kind (snippets, the repository's own js test literals that parse, seeded combinations) the harness builds the tree by reflection over the AST independently of Walk, runs js.Walk with a recording visitor under three policies, and TLC validates the whole Enter/Exit sequence against Walk.tla: root first, a node only inside its open ancestor, never twice, nothing below a stopped node, Exit only for the innermost open node, and at the end every required node entered unless under a stopped node.",
             "Programs are sampled, not exhaustive; node identity is by slot (address+type, or content for copies). Trusted: the reflection walker's notion of 'part of the tree' (exported fields except scope tables).",
             "DESIGN.md §4 C18"),
+    "C08": ("TLA+ monitor CssStream.tla (nesting, token conservation, final io.EOF) judging by TLC trace validation every unit css.Parser reports on TLC-generated class strings, mutated test literals and grammar-generated stylesheets; TLA+ grammar CssGrammar.tla generating well-formed stylesheets with the expected units and Values()",
+            "TLC enumerates every css class string up to length 3-4 and (CssGrammar.tla) well-formed stylesheets and inline declaration lists with the units the statement prescribes; the harness parses each in both modes, locates every reported token in css.Lexer's token list of the same input, and TLC validates each unit against CssStream.tla: End matches the innermost Begin and depth stays >= 0 while no parse error was reported, everything is closed before the end-of-input report, reported tokens are input tokens in strictly increasing source order (with the statement's rewritings), and the stream ends with ErrorGrammar/io.EOF; generated stylesheets are additionally compared unit by unit (type, lower-cased name, Values with whitespace exactly where expected).",
+            "Bounded input length / document size; DESIGN.md C08 fixes the reading of 'punctuation'. Values() of End units is not judged.",
+            "DESIGN.md §4 C08"),
 }
 NOT_APPLICABLE = {
 }
